@@ -16,6 +16,7 @@ import (
 //   dec <T> <V> <pts> <epts>     Decode into V               -> ok <V'> | err <V'>
 //   mrg <T> <V> <pts>            MergePoints(V.id, pts, &V)  -> ok <V'> | err <V'> | nomatch
 //   dm  <T> <A> <B>              DiffPoints(A,B), MergePoints onto a copy of A -> <diff sorted> | ok <A'>  (or differr)
+//   rtc <T> <V> <kids> <children> Encode V and every child, Decode node + children into zero -> ok <V'> # <ctype>=[<child values>] ...
 
 func init() {
 	register("C10", &Prop{Gen: c10Gen, Run: cfgRun})
@@ -47,6 +48,53 @@ func cfgRun(c string) string {
 			st = "err "
 		}
 		return st + cfgValueText(out, fields)
+	case "rtc":
+		// rtc <T> <V> <kids> <children>: Encode the value; Encode every child (ctypeHex@value, in the given order, with the
+		// node type set to ctype; a ctype that is no field of T is a distractor built with the first child type);
+		// Decode node + children into the zero value of T extended by the child fields
+		kids := parseCfgKids(f[3])
+		tk := cfgGoTypeKids(f[1], fields, f[3], kids)
+		v := buildCfgValue(tk, fields, f[2])
+		ne, err := data.Encode(v.Interface())
+		if err != nil {
+			return "encerr"
+		}
+		var children []data.NodeEdgeChildren
+		if f[4] != "-" {
+			for _, cs := range strings.Split(f[4], ",") {
+				p := strings.SplitN(cs, "@", 2)
+				ctype := string(unhx(p[0]))
+				kid := kids[0]
+				for _, k := range kids {
+					if k.ctype == ctype {
+						kid = k
+					}
+				}
+				cv := buildCfgValue(cfgGoType(kid.desc, kid.fields), kid.fields, p[1])
+				cne, err := data.Encode(cv.Interface())
+				if err != nil {
+					return "encerr"
+				}
+				cne.Type = ctype
+				children = append(children, data.NodeEdgeChildren{NodeEdge: cne})
+			}
+		}
+		out := reflect.New(tk)
+		err = data.Decode(data.NodeEdgeChildren{NodeEdge: ne, Children: children}, out.Interface())
+		st := "ok "
+		if err != nil {
+			st = "err "
+		}
+		res := st + cfgValueText(out, fields) + " #"
+		for j, k := range kids {
+			sl := out.Elem().Field(2 + len(fields) + j)
+			var it []string
+			for i := 0; i < sl.Len(); i++ {
+				it = append(it, cfgValueText(sl.Index(i).Addr(), k.fields))
+			}
+			res += " " + hxs(k.ctype) + "=[" + strings.Join(it, ",") + "]"
+		}
+		return res
 	case "dec":
 		v := buildCfgValue(t, fields, f[2])
 		ne := data.NodeEdge{Points: parseCps(f[3]), EdgePoints: parseCps(f[4])}
@@ -274,6 +322,35 @@ func c10Gen(r *rand.Rand, n int, tier string) []string {
 		T := genCfgType(r)
 		fields := parseCfgType(T)
 		wide := r.Intn(6) == 0 // separate stream: values outside the supported universe (limits, empty map keys)
+		if r.Intn(8) == 0 {
+			// child lists: 1-2 child fields with distinct node types, 0-5 children in any order, sometimes one of a type
+			// that no field asks for
+			ctypes := []string{"condition", "action", "shellyIo"}
+			r.Shuffle(len(ctypes), func(a, b int) { ctypes[a], ctypes[b] = ctypes[b], ctypes[a] })
+			nk := 1 + r.Intn(2)
+			var kdesc []string
+			var kfields [][]cfgField
+			for j := 0; j < nk; j++ {
+				kt := genCfgType(r)
+				kdesc = append(kdesc, hxs(ctypes[j])+"@"+kt)
+				kfields = append(kfields, parseCfgType(kt))
+			}
+			var ch []string
+			for j := 0; j < r.Intn(6); j++ {
+				w := r.Intn(nk)
+				ct := ctypes[w]
+				if r.Intn(7) == 0 {
+					ct, w = "zz", 0
+				}
+				ch = append(ch, hxs(ct)+"@"+genCfgValue(r, kfields[w], false))
+			}
+			chs := "-"
+			if len(ch) > 0 {
+				chs = strings.Join(ch, ",")
+			}
+			out = append(out, fmt.Sprintf("rtc %s %s %s %s", T, genCfgValue(r, fields, false), strings.Join(kdesc, ";"), chs))
+			continue
+		}
 		switch r.Intn(6) {
 		case 0:
 			out = append(out, fmt.Sprintf("enc %s %s", T, genCfgValue(r, fields, wide)))
